@@ -72,10 +72,53 @@ def seeded():
     return "\n".join(rows)
 
 
+def _cell(t):
+    return t.replace("|", "/").replace("\n", " ")
+
+
+def fixed():
+    """Table of repaired defects from the `fixed:` lines of known_findings.jsonl (commit subject from /repo)."""
+    import subprocess
+
+    rows = ["| property | commit | what was wrong (commit subject) | found by |", "|---|---|---|---|"]
+    n = 0
+    for l in open(os.path.join(V, "known_findings.jsonl")):
+        m = re.match(r"fixed: property=(\S+) (\w+) (.*)", l.strip())
+        if not m:
+            continue
+        n += 1
+        pid, h, text = m.groups()
+        subj = subprocess.run(["git", "-C", "/repo", "log", "-1", "--format=%s", h], capture_output=True,
+                              text=True).stdout.strip()
+        fb = re.search(r"[Ff]ound by (.*)$", text)
+        rows.append("| %s | %s | %s | %s |" % (pid, h, _cell(subj[len("fix:"):].strip() if subj.startswith("fix:") else subj),
+                                             _cell(fb.group(1).rstrip(".")[:200]) if fb else ""))
+    rows.append("")
+    rows.append("%d repairs, one `fix:` commit each." % n)
+    return "\n".join(rows)
+
+
+def known():
+    rows = ["| property | harness | where (predicate over the counterexample) | finding |", "|---|---|---|---|"]
+    n = 0
+    for l in open(os.path.join(V, "known_findings.jsonl")):
+        if not l.startswith("{"):
+            continue
+        e = json.loads(l)
+        n += 1
+        where = e.get("when", "")
+        if e.get("obligation") or e.get("obligation_re"):
+            where = "obligation ~ `%s`; %s" % (_cell(e.get("obligation_re") or e.get("obligation"))[:90], where)
+        rows.append("| %s | %s | %s | %s |" % (e["property"], e["harness"], _cell(where)[:230], _cell(e["what"])[:420]))
+    rows.append("")
+    rows.append("%d recorded entries (several entries may describe one defect seen by several harnesses or obligations)." % n)
+    return "\n".join(rows)
+
+
 def main():
     p = os.path.join(V, "DESIGN.md")
     s = open(p).read()
-    for tag, fn in (("PER-PROPERTY", per_property), ("SEEDED", seeded)):
+    for tag, fn in (("PER-PROPERTY", per_property), ("SEEDED", seeded), ("FIXED", fixed), ("KNOWN", known)):
         a, b = "<!-- BEGIN GENERATED %s -->" % tag, "<!-- END GENERATED %s -->" % tag
         if a in s and b in s:
             s = s[:s.index(a) + len(a)] + "\n" + fn() + "\n" + s[s.index(b):]
